@@ -380,6 +380,133 @@ example : parseMergeAll false [("SHARED", "sup")] [[("SHARED", "alpha")], [], [(
 example : parseMergeAll read_config_env_copied [("SHARED", "sup")] [[("SHARED", "alpha")], [], [("SHARED", "gamma"), ("ONLY_GAMMA", "1")]]
     = [[("SHARED", "alpha")], [("SHARED", "sup")], [("SHARED", "gamma"), ("ONLY_GAMMA", "1")]] := by decide
 
+/-! ### SUPERVISOR_SERVER_URL: which server the child is told about (docs/configuration.rst, `serverurl`: the program's own value
+    if one is configured; if it "is set to AUTO, or is unset, supervisor will automatically construct a server URL, giving
+    preference to a server that listens on UNIX domain sockets over one that listens on an internet socket") -/
+
+def unixUrl (s : ServerCfg) : String := "unix://" ++ s.file
+
+/-- an inet server listening on every interface (`port=9001`, `:9001`, `*:9001`: host '') is reached through localhost -/
+def inetUrl (s : ServerCfg) : String :=
+  "http://" ++ (if s.host.isEmpty then "localhost" else s.host) ++ ":" ++ toString s.port
+
+/-- the documented choice over the configured servers: the FIRST unix-socket server if there is any, else the LAST inet server
+    (the inet loop of `realize()` has no `break`; the documentation does not say which of several), else none -/
+def documentedUrl (cfgs : List ServerCfg) : Option String :=
+  match (cfgs.filter fun s => s.family = .unix).head? with
+  | some s => some (unixUrl s)
+  | none =>
+    match (cfgs.filter fun s => s.family = .inet).getLast? with
+    | some s => some (inetUrl s)
+    | none => none
+
+theorem unixUrl_nonempty (s : ServerCfg) : (unixUrl s).isEmpty = false := by simp [unixUrl, String.isEmpty_iff]
+theorem inetUrl_nonempty (s : ServerCfg) : (inetUrl s).isEmpty = false := by simp [inetUrl, String.isEmpty_iff]
+
+theorem stage0_url (s : ServerCfg) : stageUrl surl_stage0_fmt surl_stage0_args surl_stage0_defaults s = unixUrl s := by
+  simp [stageUrl, surl_stage0_fmt, surl_stage0_args, surl_stage0_defaults, ServerCfg.field, unixUrl,
+    pyFormat, pyFormatAux, ← String.append_assoc, List.lookup]
+
+theorem stage1_url (s : ServerCfg) : stageUrl surl_stage1_fmt surl_stage1_args surl_stage1_defaults s = inetUrl s := by
+  simp [stageUrl, surl_stage1_fmt, surl_stage1_args, surl_stage1_defaults, ServerCfg.field, inetUrl,
+    pyFormat, pyFormatAux, ← String.append_assoc, List.lookup]
+
+theorem stage0_family : stageFamily surl_stage0_family = .unix := by decide
+theorem stage1_family : stageFamily surl_stage1_family = .inet := by decide
+
+/-- **`options.serverurl` is the documented choice**, for EVERY list of server configurations (any number of servers of either
+    family in any order): the two loops of `realize()` with their extracted guards, `break`s, formats and defaults compute
+    `documentedUrl`.  (Without the guard `if self.serverurl is None:` of the inet loop the case "a unix and an inet server"
+    leaves `inetUrl _ = unixUrl _` to prove.) -/
+theorem server_url_choice (cfgs : List ServerCfg) : chooseServerUrl cfgs = documentedUrl cfgs := by
+  simp only [chooseServerUrl, runStage, documentedUrl, stage0_url, stage1_url, stage0_family, stage1_family,
+    surl_stage0_guard, surl_stage1_guard, surl_stage0_first, surl_stage1_first]
+  cases (cfgs.filter fun s => s.family = .unix).head? <;>
+    cases (cfgs.filter fun s => s.family = .inet).getLast? <;> simp [unixUrl_nonempty, inetUrl_nonempty]
+
+/-- **preference for the UNIX domain socket server**: if any unix-socket server is configured, the url is `unix://<file>` of the
+    first one — whatever inet servers are configured besides, before or after it -/
+theorem unix_server_preferred (cfgs : List ServerCfg) (s : ServerCfg) (hs : s ∈ cfgs) (hu : s.family = .unix) :
+    ∃ pre u post, cfgs = pre ++ u :: post ∧ u.family = .unix ∧ (∀ x ∈ pre, x.family ≠ .unix) ∧
+      chooseServerUrl cfgs = some (unixUrl u) := by
+  rw [server_url_choice, documentedUrl]
+  cases h : (cfgs.filter fun s => s.family = .unix).head? with
+  | none =>
+    exfalso
+    rw [List.head?_filter, List.find?_eq_none] at h
+    exact absurd hu (by simpa using h s hs)
+  | some u =>
+    rw [List.head?_filter, List.find?_eq_some_iff_append] at h
+    obtain ⟨hu', pre, post, rfl, hpre⟩ := h
+    exact ⟨pre, u, post, rfl, by simpa using hu', fun x hx => by simpa using hpre x hx, rfl⟩
+
+/-- **inet fallback**: only inet servers (at least one): `http://host:port` of the last one, `localhost` for an empty host -/
+theorem inet_server_fallback (cfgs : List ServerCfg) (hne : cfgs ≠ []) (hall : ∀ x ∈ cfgs, x.family = .inet) :
+    chooseServerUrl cfgs = some (inetUrl (cfgs.getLast hne)) := by
+  rw [server_url_choice, documentedUrl]
+  have h1 : (cfgs.filter fun s => s.family = .unix) = [] := by
+    simp only [List.filter_eq_nil_iff]; intro x hx; simp [hall x hx]
+  have h2 : (cfgs.filter fun s => s.family = .inet) = cfgs := by
+    simp only [List.filter_eq_self]; intro x hx; simp [hall x hx]
+  simp [h1, h2, List.getLast?_eq_some_getLast hne]
+
+/-- no server section at all: no url -/
+theorem no_server_no_url : chooseServerUrl [] = none := by
+  rw [server_url_choice]; rfl
+
+theorem configuredServerUrl_none_iff (raw : Option String) :
+    configuredServerUrl raw = none ↔ raw = none ∨ ∃ s, raw = some s ∧ isAutoUrl s = true := by
+  cases raw with
+  | none => simp [configuredServerUrl]
+  | some s => cases h : isAutoUrl s <;> simp [configuredServerUrl, h]
+
+/-- **end to end, `serverurl` unset or AUTO**: the child of such a program (whose configured environment does not set the
+    variable itself) is exec'ed with SUPERVISOR_SERVER_URL = the documented choice over the servers of the file; with no server
+    configured the variable is whatever supervisord's own environment has -/
+theorem child_told_constructed_url (c : Cfg) (raw : Option String) (cfgs : List ServerCfg)
+    (hauto : raw = none ∨ ∃ s, raw = some s ∧ isAutoUrl s = true)
+    (henv : lookupLast (c.environment.getD []) "SUPERVISOR_SERVER_URL" = none) :
+    envGet (childEnv (withFileUrls c raw cfgs)) "SUPERVISOR_SERVER_URL" =
+      match documentedUrl cfgs with
+      | some u => some u
+      | none => envGet c.osenv "SUPERVISOR_SERVER_URL" := by
+  have hc := (configuredServerUrl_none_iff raw).mpr hauto
+  have hne : ∀ u, documentedUrl cfgs = some u → u.isEmpty = false := by
+    intro u hu
+    simp only [documentedUrl] at hu
+    split at hu
+    · cases hu; exact unixUrl_nonempty _
+    · split at hu
+      · cases hu; exact inetUrl_nonempty _
+      · cases hu
+  rw [env_composition, promisedLookup]
+  simp only [withFileUrls, henv, supervisorVars, effectiveUrl, hc, server_url_choice]
+  cases hd : documentedUrl cfgs with
+  | none => cases c.group <;> simp [lookupLast]
+  | some u => cases c.group <;> simp [lookupLast, hne u hd]
+
+/-- **end to end, explicit `serverurl`**: the child is told the program's own value, whatever servers are configured -/
+theorem child_told_explicit_url (c : Cfg) (s : String) (cfgs : List ServerCfg)
+    (hna : isAutoUrl s = false) (hne : s.isEmpty = false)
+    (henv : lookupLast (c.environment.getD []) "SUPERVISOR_SERVER_URL" = none) :
+    envGet (childEnv (withFileUrls c (some s) cfgs)) "SUPERVISOR_SERVER_URL" = some s := by
+  rw [env_composition, promisedLookup]
+  simp only [withFileUrls, henv, supervisorVars, effectiveUrl, configuredServerUrl, hna]
+  cases c.group <;> simp [lookupLast, hne]
+
+-- hypotheses are satisfiable: the demo's files (inet + unix in either order of the file: the inet sections come first in server_configs)
+example : chooseServerUrl (serverConfigsOfFile [.inet (some "127.0.0.1") 49001, .unix "/tmp/supervisor.sock"]) = some "unix:///tmp/supervisor.sock" := by decide
+example : chooseServerUrl (serverConfigsOfFile [.unix "/tmp/supervisor.sock", .inet (some "127.0.0.1") 49001]) = some "unix:///tmp/supervisor.sock" := by decide
+example : chooseServerUrl (serverConfigsOfFile [.inet (some "*") 9001]) = some "http://localhost:9001" := by decide
+example : chooseServerUrl (serverConfigsOfFile [.inet none 9001, .inet (some "Example.COM") 8080]) = some "http://example.com:8080" := by decide
+example : chooseServerUrl (serverConfigsOfFile [.unix "/a.sock", .inet none 9001, .unix "/b.sock"]) = some "unix:///a.sock" := by decide
+example : isAutoUrl "AUTO" = true ∧ isAutoUrl " auto " = true ∧ isAutoUrl "http://elsewhere:1234" = false ∧ isAutoUrl "" = false := by decide
+-- the inet loop WITHOUT its guard (seeded change C18-8): the inet url replaces the unix one
+example : runStage "AF_INET" (fun _ => true) false (stageUrl "http://%s:%s" ["host", "port"] [("host", "localhost")])
+      [⟨.inet, "127.0.0.1", 49001, ""⟩, ⟨.unix, "", 0, "/tmp/supervisor.sock"⟩]
+      (runStage "AF_UNIX" (fun _ => true) true (stageUrl "unix://%s" ["file"] []) [⟨.inet, "127.0.0.1", 49001, ""⟩, ⟨.unix, "", 0, "/tmp/supervisor.sock"⟩] none)
+    = some "http://127.0.0.1:49001" := by decide
+
 /-- the three shapes of a run of the child, used by all theorems below -/
 theorem childLog_cases (c : Cfg) (orc : Oracle) :
     (∃ d, d.map (·.call) = promisedCalls c ∧ CanSwitch c ∧ (∀ e ∈ d, OkEv e ∧ e.call.isPrep = true) ∧
